@@ -33,6 +33,7 @@ REPLAY_OUT = os.path.join(ROOT, "replays", "out")
 KNOWN_FILE = os.path.join(ROOT, "known_findings.json")
 SCHEMA = os.path.join(ROOT, "schemas", "EVIDENCE.schema.json")
 NPROC = int(os.environ.get("VERIF_JOBS", "16"))
+MAX_REPORTED = 12
 
 CHECKS = {
     "C01": "checks.c01_converge",
@@ -235,7 +236,9 @@ def run_check(pid: str, tier: str, seed: int) -> int:
     os.makedirs(REPLAY_OUT, exist_ok=True)
     for ent, hit in known_hit:
         print("KNOWN-FINDING: property=%s %s (x%d) sig=%s" % (pid, hit.get("what", ""), ent["count"], canon(ent["sig"])))
-    for ent, _ in new_viol:
+    if len(new_viol) > MAX_REPORTED:
+        print("NOTE: %d distinct violation signatures; reporting the first %d" % (len(new_viol), MAX_REPORTED))
+    for ent, _ in new_viol[:MAX_REPORTED]:
         c = ent["cases"][0]
         path = os.path.join(REPLAY_OUT, "%s-%s.json" % (pid, digest(ent["sig"])))
         with open(path, "w") as f:
